@@ -4,7 +4,7 @@
 cd "$(dirname "$0")/.."
 [ -n "$VP_RUN_REPO" ] && export VERIF_REPO="$VP_RUN_REPO"
 ./setup.sh >/dev/null 2>&1 || { echo setup failed; exit 2; }
-PROPS="C02 C03 C04 C05 C06 C07 C10 C13 C14 C16 C18 C19 C20 C11 C12 C09 C01 C17 C15"
+[ -n "$SWEEP_PROPS" ] && PROPS="$SWEEP_PROPS" || PROPS="C02 C03 C04 C05 C06 C07 C10 C13 C14 C16 C18 C19 C20 C11 C12 C09 C01 C17 C15"
 if [ "$1" = "thorough" ]; then
   for p in $PROPS; do
     s=$(date +%s); ./check $p --tier thorough > log-$p-thorough.txt 2>&1; rc=$?
